@@ -117,6 +117,15 @@ def facet_of(t):
     return None
 
 
+def _and_pair(t):
+    """(a, b) when t is the element-wise conjunction of two Boolean arrays: np.logical_and(a, b), a & b, a * b"""
+    if t.op == "call" and call_name(t) == "np.logical_and" and len(t.a[1]) == 2:
+        return t.a[1][0], t.a[1][1]
+    if t.op == "bin" and t.a[0] in ("&", "*"):
+        return t.a[1], t.a[2]
+    return None
+
+
 def split_product(t):
     if t.op == "bin" and t.a[0] in ("*", "&"):
         return split_product(t.a[1]) + split_product(t.a[2])
@@ -320,8 +329,8 @@ def rule_vocab(ctx):
                     got.add("maj")
                 elif v is not None and _quality_prefix(v, "min", 8):
                     got.add("min")
-                elif p.op == "call" and call_name(p) == "np.logical_and" and len(p.a[1]) == 2:
-                    a, b = p.a[1]
+                elif _and_pair(p) is not None:
+                    a, b = _and_pair(p)
                     for u, w in ((a, b), (b, a)):
                         fr = u.op == "cmp" and u.a[0] == "<" and tm.is_const(u.a[2], 0) and facet_of(u.a[1]) is not None and facet_of(u.a[1])[1] == "ROOT" and role_of(facet_of(u.a[1])[0]) == "R"
                         z = _ref_all_equal(w, "SEMIall")
@@ -449,8 +458,8 @@ def rule_mirexconst(ctx):
     yield ob("C11.MIREXCONST", f, "chord.mirex:x-skipped", xm, "X references (negative bitmap) are skipped")
     nn = False
     for o in one:
-        if o.op == "call" and call_name(o) == "np.logical_and" and len(o.a[1]) == 2:
-            a, b = o.a[1]
+        if _and_pair(o) is not None:
+            a, b = _and_pair(o)
             fa = [facet_of(z.a[2]) if (z.op == "cmp" and z.a[0] == "==" and tm.is_const(z.a[1], -1)) else None for z in (a, b)]
             if all(x is not None and x[1] == "ROOT" for x in fa) and {role_of(fa[0][0]), role_of(fa[1][0])} == {"R", "E"}:
                 nn = True
